@@ -77,7 +77,7 @@ func C03(c *Case) *Result {
 	t := c.Tape
 	maxForgedBlock := 4 << 20
 	if c.Thorough() {
-		maxForgedBlock = 64 << 20
+		maxForgedBlock = 16 << 20
 	}
 	fam := t.Pick(4, 3, 3, 1, 1, 1)
 	if c.Thorough() && t.Intn(60) == 0 {
@@ -162,119 +162,143 @@ func C03(c *Case) *Result {
 		parsed = nil
 	}
 
-	switch fam {
-	case 0:
-		// mutations aimed at the codec data of the blocks: first bytes (headers, tables), anywhere, last bytes
-		n := 1 + t.Intn(6)
-		for i := 0; i < n; i++ {
-			lo, hi := 26*8, len(stream)*8
+	// several mutated variants of the same valid stream per case (the stream is produced once)
+	base := stream
+	variants := 1
+	if fam != 6 {
+		variants = 4 + t.Intn(5)
+	}
+	for v := 0; v < variants; v++ {
+		stream = append([]byte(nil), base...)
+		if v > 0 {
+			fam = t.Pick(4, 3, 3, 1, 1, 1)
+		}
+		res.Probes["variants"]++
+		switch fam {
+		case 0:
+			// mutations aimed at the codec data of the blocks: first bytes (headers, tables), anywhere, last bytes
+			n := 1 + t.Intn(6)
+			for i := 0; i < n; i++ {
+				lo, hi := 26*8, len(stream)*8
+				if parsed != nil && len(parsed.Blocks) > 0 {
+					b := parsed.Blocks[t.Intn(len(parsed.Blocks))]
+					lo, hi = b.BodyPos, b.EndPos
+					if t.Intn(2) == 0 {
+						hi = min(hi, lo+8*48)
+					}
+				}
+				if hi <= lo {
+					continue
+				}
+				pos := lo + t.Intn(hi-lo)
+				// byte-aligned with respect to the block body in half of the cases (codec fields are bytes)
+				if t.Intn(2) == 0 && parsed != nil && len(parsed.Blocks) > 0 {
+					pos = lo + 8*((pos-lo)/8)
+				}
+				switch t.Intn(7) {
+				case 0:
+					model.FlipBit(stream, pos)
+				case 1:
+					model.SetBits(stream, pos, min(8, len(stream)*8-pos), uint64(t.Intn(256)))
+				case 2:
+					model.SetBits(stream, pos, min(8, len(stream)*8-pos), 0xFF)
+				case 3:
+					// zero is special in most codecs: zero length, zero distance, zero run, zero count
+					model.SetBits(stream, pos, min(8, len(stream)*8-pos), 0)
+				case 4:
+					model.SetBits(stream, pos, min(8*(2+t.Intn(3)), len(stream)*8-pos), 0)
+				case 5:
+					model.SetBits(stream, pos, min(8, len(stream)*8-pos), uint64([]int{1, 2, 0x7F, 0x80, 0xFE}[t.Intn(5)]))
+				default:
+					model.SetBits(stream, pos, min(32, len(stream)*8-pos), uint64(t.Intn(1<<31)))
+				}
+				res.Faults["store.mutate"]++
+			}
+		case 1:
+			// forged container fields
 			if parsed != nil && len(parsed.Blocks) > 0 {
 				b := parsed.Blocks[t.Intn(len(parsed.Blocks))]
-				lo, hi = b.BodyPos, b.EndPos
-				if t.Intn(2) == 0 {
-					hi = min(hi, lo+8*48)
+				switch t.Intn(5) {
+				case 0:
+					model.SetBits(stream, b.RecordPos, 5, uint64(t.Intn(32))) // width of the length field
+					res.Faults["forge.len.width"]++
+				case 1:
+					model.SetBits(stream, b.LenPos, b.LenWidth, uint64(t.Intn(1<<uint(min(b.LenWidth, 30)))))
+					res.Faults["forge.len.value"]++
+				case 2:
+					model.SetBits(stream, b.PayloadPos, 8, uint64(t.Intn(256))) // mode byte: copy flag, size of size, skip flags
+					res.Faults["forge.mode"]++
+				case 3:
+					model.SetBits(stream, b.PreLenPos, b.PreLenBits, uint64(t.Intn(1<<uint(min(b.PreLenBits, 30)))))
+					res.Faults["forge.prelen"]++
+				default:
+					model.SetBits(stream, b.LenPos, b.LenWidth, 0) // early end marker
+					res.Faults["forge.endmarker"]++
 				}
+			} else {
+				model.FlipBit(stream, t.Intn(len(stream)*8))
 			}
-			if hi <= lo {
-				continue
+		case 2:
+			if parsed != nil {
+				forgeHeader(t, stream, parsed.Hdr, res, maxForgedBlock)
 			}
-			pos := lo + t.Intn(hi-lo)
-			switch t.Intn(4) {
-			case 0:
-				model.FlipBit(stream, pos)
-			case 1:
-				model.SetBits(stream, pos, min(8, len(stream)*8-pos), uint64(t.Intn(256)))
-			case 2:
-				model.SetBits(stream, pos, min(8, len(stream)*8-pos), 0xFF)
-			default:
-				model.SetBits(stream, pos, min(32, len(stream)*8-pos), uint64(t.Intn(1<<31)))
+		case 3:
+			cut := t.Intn(len(stream) + 1)
+			stream = stream[:cut]
+			g := sim.NewSplitMix(t.Seed())
+			tail := t.Intn(64)
+			for i := 0; i < tail; i++ {
+				stream = append(stream, byte(g.Next()))
 			}
-			res.Faults["store.mutate"]++
-		}
-	case 1:
-		// forged container fields
-		if parsed != nil && len(parsed.Blocks) > 0 {
-			b := parsed.Blocks[t.Intn(len(parsed.Blocks))]
-			switch t.Intn(5) {
-			case 0:
-				model.SetBits(stream, b.RecordPos, 5, uint64(t.Intn(32))) // width of the length field
-				res.Faults["forge.len.width"]++
-			case 1:
-				model.SetBits(stream, b.LenPos, b.LenWidth, uint64(t.Intn(1<<uint(min(b.LenWidth, 30)))))
-				res.Faults["forge.len.value"]++
-			case 2:
-				model.SetBits(stream, b.PayloadPos, 8, uint64(t.Intn(256))) // mode byte: copy flag, size of size, skip flags
-				res.Faults["forge.mode"]++
-			case 3:
-				model.SetBits(stream, b.PreLenPos, b.PreLenBits, uint64(t.Intn(1<<uint(min(b.PreLenBits, 30)))))
-				res.Faults["forge.prelen"]++
-			default:
-				model.SetBits(stream, b.LenPos, b.LenWidth, 0) // early end marker
-				res.Faults["forge.endmarker"]++
+			res.Faults["truncate+tail"]++
+		case 4:
+			g := sim.NewSplitMix(t.Seed())
+			keep := 0
+			if t.Intn(2) == 0 && parsed != nil {
+				keep = parsed.Hdr.Bits / 8 // valid header, random body
 			}
-		} else {
-			model.FlipBit(stream, t.Intn(len(stream)*8))
+			for i := keep; i < len(stream); i++ {
+				stream[i] = byte(g.Next())
+			}
+			res.Faults["random.body"]++
+		case 5:
+			// splice: duplicate / move a chunk of the stream
+			if len(stream) > 40 {
+				a := 20 + t.Intn(len(stream)-20)
+				l := 1 + t.Intn(min(64, len(stream)-a))
+				b := 20 + t.Intn(len(stream)-20)
+				chunk := append([]byte(nil), stream[a:a+l]...)
+				stream = append(stream[:b:b], append(chunk, stream[b:]...)...)
+				res.Faults["splice"]++
+			}
 		}
-	case 2:
-		if parsed != nil {
-			forgeHeader(t, stream, parsed.Hdr, res, maxForgedBlock)
-		}
-	case 3:
-		cut := t.Intn(len(stream) + 1)
-		stream = stream[:cut]
-		g := sim.NewSplitMix(t.Seed())
-		tail := t.Intn(64)
-		for i := 0; i < tail; i++ {
-			stream = append(stream, byte(g.Next()))
-		}
-		res.Faults["truncate+tail"]++
-	case 4:
-		g := sim.NewSplitMix(t.Seed())
-		keep := 0
-		if t.Intn(2) == 0 && parsed != nil {
-			keep = parsed.Hdr.Bits / 8 // valid header, random body
-		}
-		for i := keep; i < len(stream); i++ {
-			stream[i] = byte(g.Next())
-		}
-		res.Faults["random.body"]++
-	case 5:
-		// splice: duplicate / move a chunk of the stream
-		if len(stream) > 40 {
-			a := 20 + t.Intn(len(stream)-20)
-			l := 1 + t.Intn(min(64, len(stream)-a))
-			b := 20 + t.Intn(len(stream)-20)
-			chunk := append([]byte(nil), stream[a:a+l]...)
-			stream = append(stream[:b:b], append(chunk, stream[b:]...)...)
-			res.Faults["splice"]++
-		}
-	}
 
-	jobs := 1 + t.Intn(8)
-	if fam == 6 {
-		jobs = cfg.DecJobs
-	}
-	if expensiveEntropy(cfg) {
-		jobs = min(jobs, 2)
-	}
-	sizes := readSizes(t, max(cfg.BlockSize, 1024))
-	spec := ReaderSpec{Jobs: jobs, RBuf: GenBuf(t)}
-	limit := 8*len(data) + 1<<20
-	ro := simDecode(c, res, simNoHooks, spec, stream, sizes, 1+t.Intn(3), limit)
-	res.NonTriv = true
-	if res.Verdict == "fail" {
-		return res
-	}
-	if ro.Panic != nil {
-		return res.fail("panic-escaped", "panic escaped the Reader API on a malformed stream: %v", ro.Panic)
-	}
-	switch {
-	case ro.NewErr != nil:
-		res.Probes["rejected.at.construction"]++
-	case isEOF(ro.Err):
-		res.Probes["decoded.to.eof"]++
-	case ro.Err != nil:
-		res.Probes["rejected.with.error"]++
+		jobs := 1 + t.Intn(8)
+		if fam == 6 {
+			jobs = cfg.DecJobs
+		}
+		if expensiveEntropy(cfg) {
+			jobs = min(jobs, 2)
+		}
+		sizes := readSizes(t, max(cfg.BlockSize, 1024))
+		spec := ReaderSpec{Jobs: jobs, RBuf: GenBuf(t)}
+		limit := 8*len(data) + 1<<20
+		ro := simDecode(c, res, simNoHooks, spec, stream, sizes, 1+t.Intn(3), limit)
+		res.NonTriv = true
+		if res.Verdict == "fail" {
+			return res
+		}
+		if ro.Panic != nil {
+			return res.fail("panic-escaped", "panic escaped the Reader API on a malformed stream: %v", ro.Panic)
+		}
+		switch {
+		case ro.NewErr != nil:
+			res.Probes["rejected.at.construction"]++
+		case isEOF(ro.Err):
+			res.Probes["decoded.to.eof"]++
+		case ro.Err != nil:
+			res.Probes["rejected.with.error"]++
+		}
 	}
 	return res
 }
